@@ -1056,6 +1056,8 @@ def _o_broadcast(stats, item):
             arr = _call(os_, "p", **kw)
             unchanged("p")
             want = [[_call(os_, "p", c=cs, n=ns[i], r=rs[i])] for i in range(2)]
+            if any(isinstance(w[0], str) for w in want):
+                continue  # r > n for one of the elements: no coverage has that confidence, scalar and array calls both raise
             if isinstance(arr, str) or np.shape(arr) != (2, 1) or not np.allclose(arr, want, rtol=0, atol=1e-9):
                 fail("p", np.asarray(arr).tolist() if not isinstance(arr, str) else arr, want)
             continue
